@@ -2,7 +2,7 @@
 //! symbolic domain — one `u32` / `u16` / two `bool`s per query.
 
 use crate::spec::avp as sa;
-use crate::{check, nd, witness};
+use crate::{check, nd, require, witness};
 use rl2tp::avp::types as T;
 use rl2tp::avp::AVP;
 use rl2tp::common::{DecodeError as DE, SliceReader, VecWriter};
@@ -72,12 +72,13 @@ macro_rules! mask_word_harness {
             let v2 = T::$ty::try_read(&mut SliceReader::from(&p2)).unwrap();
             check!(v2.$a() == v.$a() && v2.$b() == v.$b(), "C17: accessors do not depend on any other bit of the word");
             let out = write_avp(&AVP::$variant(v));
-            check!(out.len() == 10, "C17: bitmask AVP encodes to 10 octets");
+            require!(out.len() == 10, "C17: bitmask AVP encodes to 10 octets");
             check!(out[4] == 0 && out[5] == $num, "C17: bitmask AVP keeps its attribute type");
             check!([out[6], out[7], out[8], out[9]] == p, "C17: all 32 bits of a received bitmask survive decode then encode");
             // constructor produces exactly the two bits
             let (x, y): (bool, bool) = (nd::any(), nd::any());
             let c = write_avp(&AVP::$variant(T::$ty::new(x, y)));
+            require!(c.len() == 10, "C17: bitmask AVP encodes to 10 octets");
             let cw = u32::from_be_bytes([c[6], c[7], c[8], c[9]]);
             check!(cw & !0xC0 == 0, "C17: constructor sets no bit besides its two flags");
             witness!(w & 0xffffff3f != 0 && v.$a() && !v.$b(), "other_bits_set");
